@@ -285,3 +285,48 @@ func (p *Prog) Contradict(a, b *ssa.BasicBlock) bool {
 	}
 	return false
 }
+
+// SameValue: a and b denote the same value within one activation of their function: identical SSA values, loads of one local
+// cell with identical reaching stores, or loads of the same field of the same base when that field is not stored to in the
+// function (two reads of x.f with nothing in between).
+func (p *Prog) SameValue(a, b ssa.Value) bool {
+	for i := 0; i < 8; i++ {
+		if ca, ok := a.(*ssa.ChangeType); ok {
+			a = ca.X
+			continue
+		}
+		if cb, ok := b.(*ssa.ChangeType); ok {
+			b = cb.X
+			continue
+		}
+		break
+	}
+	if a == b {
+		return true
+	}
+	if p.sameOperand(a, b) {
+		return true
+	}
+	la, ok1 := a.(*ssa.UnOp)
+	lb, ok2 := b.(*ssa.UnOp)
+	if ok1 && ok2 && la.Op == token.MUL && lb.Op == token.MUL {
+		fa, ok1 := la.X.(*ssa.FieldAddr)
+		fb, ok2 := lb.X.(*ssa.FieldAddr)
+		if ok1 && ok2 && fa.Field == fb.Field && fa.Parent() == fb.Parent() && p.SameValue(fa.X, fb.X) {
+			t, f, _, ok := FieldOf(fa)
+			if !ok {
+				return false
+			}
+			if _, co := p.ConstructOnly(t, f); co {
+				return true
+			}
+			for _, st := range p.FieldStores(t, f) {
+				if st.Fn == fa.Parent() {
+					return false
+				}
+			}
+			return true
+		}
+	}
+	return false
+}
